@@ -11,7 +11,7 @@ Definition ret_acc (o : obs_t) : N * N := let '(r, _, c, _) := o in (r, c).
 Lemma event_frame st e : stamper_ st <= stamper_ (do_event st e) /\ meta (do_event st e) = meta st /\
   committed_opstamp (do_event st e) = committed_opstamp st.
 Proof.
-  destruct e as [i|i]; cbn [do_event].
+  destruct e as [i|i|m]; cbn [do_event]; [| |cbn; repeat split; lia].
   - unfold do_take. destruct (chan st); [repeat split; lia|]. destruct (Nat.ltb i _); cbn; repeat split; lia.
   - unfold do_cut. destruct (nth_error (workers st) i) as [w|]; [|repeat split; lia].
     unfold finalize. destruct (w_open w); [cbn; repeat split; lia|].
